@@ -117,7 +117,15 @@ func (x *Exec) callFn(st *State, fn *ssa.Function, bind []*Val, args []*Val, pos
 		st.heaps, st.pc, st.top, st.havocs = ns.heaps, ns.pc, ns.top, ns.havocs
 		return vals, nil
 	}
-	if con := x.w.contracts[name]; con != nil && x.abstracted[fn.Name()] && fn.Signature.Recv() == nil {
+	allConst := true
+	for _, a := range args {
+		for _, c := range a.C {
+			if !c.IsConst() {
+				allConst = false
+			}
+		}
+	}
+	if con := x.w.contracts[name]; con != nil && x.abstracted[fn.Name()] && fn.Signature.Recv() == nil && !allConst {
 		if len(x.w.readPrefixes(fn)) > 0 {
 			return nil, fmt.Errorf("abstracts %s: the function reads the heap", fn.Name())
 		}
@@ -1118,6 +1126,27 @@ func init() {
 		x.store(st, ad, &v)
 		return nil, nil
 	}
+	// strings.Builder (error-message assembly in generated code): its contents are not
+	// modelled; writes return arbitrary results, String an arbitrary valid string.
+	hFreshResults := func(x *Exec, st *State, fn *ssa.Function, args []*Val, pos token.Pos) ([]*Val, error) {
+		if len(args) > 0 {
+			x.nonNil(st, args[0], pos, "strings.Builder method")
+		}
+		var out []*Val
+		rs := fn.Signature.Results()
+		for i := 0; i < rs.Len(); i++ {
+			v := x.fresh(rs.At(i).Type(), "sb_"+fn.Name())
+			for _, f := range x.validity(v, x.refOK(st)) {
+				x.fact(f)
+			}
+			out = append(out, v)
+		}
+		return out, nil
+	}
+	externals["(*strings.Builder).WriteString"] = hFreshResults
+	externals["(*strings.Builder).WriteRune"] = hFreshResults
+	externals["(*strings.Builder).WriteByte"] = hFreshResults
+	externals["(*strings.Builder).String"] = hFreshResults
 	externals["errors.New"] = func(x *Exec, st *State, fn *ssa.Function, args []*Val, pos token.Pos) ([]*Val, error) {
 		r := x.alloc(st, "err")
 		return []*Val{{T: fn.Signature.Results().At(0).Type(), C: []*Term{x.tb.BV(32, x.w.namedTypeID("*errors.errorString")), r}}}, nil
